@@ -9,7 +9,7 @@ and the entry-wise comparison with an absolute tolerance.  The Rust side is `har
 
   Complex64 entry      (e ROW COL xRE xIM)          only entries that are not exactly ±0 ± 0i are sent
   matrix               (mat DIM entry*)             square, DIM rows
-  parameter            (num xRE xIM) | (other)
+  parameter            (expr EXPR)  (EXPR in the shared ExprWire format; the model evaluates it) | (num xRE xIM) | (other)
   qubit                (f K) | (v) | (p)
   modifier             C | D | F                    (CONTROLLED, DAGGER, FORKED), outermost first
   gate                 (gate "NAME" (mods M*) (params P*) (qubits Q*))
@@ -119,7 +119,20 @@ def showDiff (A B : M) : String :=
 def isUnitaryF (tol : Float) (A : M) : Bool :=
   A.r == A.c && closeMat tol (Mat.mul (Mat.adjoint A) A) (Mat.eye A.r)
 
+/-- A gate parameter as `gate_matrix` sees it, computed by the MODEL from the expression itself: an expression
+that mentions a variable or a memory reference is not constant (`other`); a constant expression is the number the
+shared expression model's `eval` (QV/Shared/Expr.lean, over `CFloat`: num-complex's formulas) gives it.
+(quil-rs reaches the number through `into_simplified()`; for constant expressions constant folding and
+evaluation agree up to rounding, which the entry-wise tolerance absorbs.) -/
+def paramOfExpr (e : Expr CFloat) : Param C64 :=
+  if !e.vars.isEmpty || !e.addrs.isEmpty then .other
+  else
+    match QV.eval (K := CFloat) (fun _ => none) (fun _ => none) e with
+    | Except.ok z => .num ⟨z.1, z.2⟩
+    | Except.error _ => .other
+
 def decodeParam : Sexp → Option (Param C64)
+  | .list [.atom "expr", e] => (ExprWire.decodeExpr e).map paramOfExpr
   | .list [.atom "num", re, im] =>
     match ExprWire.decodeF64 re, ExprWire.decodeF64 im with
     | some re, some im => some (.num ⟨re, im⟩)
